@@ -424,7 +424,28 @@ func cmdCheck(args []string) int {
 		}
 	}
 	for _, u := range undecided {
+		// a function under contract that can no longer be bound to its contract (or whose proof is
+		// vacuous): every obligation it had on the unchanged tree is now undischarged. Fail closed;
+		// the replay harness of that function searches for a failing input.
 		fmt.Printf("UNDECIDED property=%s %s\n", *prop, u)
+		procName := strings.SplitN(u, ":", 2)[0]
+		o := &Obligation{Proc: procName, Name: procName + "/contract-binds", Props: []string{*prop}, Status: "unknown", Output: u, Meta: map[string]string{}}
+		os.MkdirAll(replayDir, 0o755)
+		path := filepath.Join(replayDir, sanitize(strings.ReplaceAll(o.Name, "/", "__"))+".json")
+		rep := replayObligation(e, o, scratch)
+		rep["obligation"] = o.Name
+		rep["property"] = *prop
+		rep["solver_status"] = "undecided"
+		rep["solver_output"] = u
+		data, _ := json.MarshalIndent(rep, "", " ")
+		os.WriteFile(path, data, 0o644)
+		suffix := ""
+		if rep["confirmed"] != true {
+			suffix = " no-failing-input-found"
+		}
+		violations++
+		fmt.Printf("VIOLATION property=%s replay=%s%s\n", *prop, path, suffix)
+		fmt.Printf("  undischarged: the contract of %s no longer binds to the code (%s)\n", procName, strings.TrimSpace(strings.SplitN(u, ":", 2)[1]))
 	}
 	var fnames []string
 	ssaInstrs := 0
